@@ -57,6 +57,8 @@ w4 = [m for m in seeded if "-w4-" in m["id"]]
 w4first = sum(1 for m in w4 if m.get("first_verdict") == "caught")
 w5 = [m for m in seeded if "-w5-" in m["id"]]
 w5first = sum(1 for m in w5 if m.get("first_verdict") == "caught")
+w6 = [m for m in seeded if "-w6-" in m["id"]]
+w6first = sum(1 for m in w6 if m.get("first_verdict") == "caught")
 sec = r'''
 ---------------------------------------------------------------------------------------------------
 
@@ -168,6 +170,15 @@ and found to be the check's fault; the clause was corrected, never the property.
   wire is snapshotted).
 * C20: the faithful Verilog copy uses a declared primitive (a never-declared one comes back with
   `inout` ports, as documented), the EBLIF base declares every bit of its bus port.
+* C19: `clone()` of a wired cable / instance builds its copy without announcements (and must: nothing in any
+  existing netlist changes); with clones in a scenario shared with C01 the strict clauses of C19 alarmed on the
+  unchanged tree.  The statement speaks of editing calls; clones are exercised under C01, C02, C07, C10 and C14.
+* C11: with two roots one of which lies above or below the reference asked for, the documentation does not say
+  which of the two relative names applies; the two-roots clause uses a root in another branch.
+* C13: whether an element *lacking* the key counts as having the value "" is not fixed; the empty-string clause only
+  demands that no element with a non-empty value is returned.
+* C18: the names the reader gives to instances without `.cname` are not specified; such instances are matched up
+  to their names (every assignment per model is tried).
 * C09/C18 self-containment (`wf`): a removed shell that still sits in a reference set, and port pins
   on wires of orphaned cables, were kept as violations (they are observable through
   `definition.references` / `pin.wire`) and fixed in the library.
@@ -255,6 +266,21 @@ Currently ''' + "%d changes, %d valid, %d caught" % (len(seeded), nvalid, ncaugh
   end as HARNESS-ERROR).  Genuine defects found on the way and repaired: a stale caller-owned set in
   `Wire.disconnect_pins_from`, uniquify with very long identifiers and with an un-named shared cell, repeated
   sibling identifiers written by the EDIF composer after copies were added to an exported netlist.
+* Wave 6 (''' + "%d changes, all 20 properties; three kinds asked for: pipelines (visible only when entry points are chained), boundary values, order dependence): %d caught at once" % (len(w6), w6first) + r'''
+  (the three C19 verdicts were re-taken: a scenario change of mine - clones inside a scenario that C19 shares - had
+  made the C19 check alarm on the unchanged tree for a few commits; clone is not an editing call in the sense of
+  C19 and moved to a scenario of its own, see 9.4).  The misses led to: held lists for every container; S16 / S17
+  (clone after reshaping, with a clause that the copy's instances keep their connections on the corresponding
+  pins); N-MIX-EDIF under the C19 mirror; C03 a cell appended after export and twins that differ in case *and* in an
+  illegal character; C04/C06/C16 a one-bit net based at 5 and a bus whose lowest bit is never used; C07 bundles not
+  based at 0 / not downto and wires with reversed pin lists; C08 orphan instances in the reference sets; C09 the
+  flattened cell reused under a name that repeats along the path; C10 identifier length boundaries and lookups from
+  above on reader-built netlists; C11 the queries asked again after every edit, also from references held from
+  before; C13 renamed capital identifiers and a one-bit array based at 3; C17 a sibling inserted in front under the
+  EDIF policy; C18 parse, rename and copy, write, read; C20 compare, edit, compare.  Side observations of the
+  sub-agents confirmed as genuine defects and repaired: comment lines between an EBLIF statement and its data,
+  a short `.latch` before a complete one.  Found by the thorough tier of C10 at depth 3 and repaired:
+  `x.name = None` on a nameless element.
 '''
 path = os.path.join(V, "DESIGN.md")
 s = open(path).read()
